@@ -1,3 +1,4 @@
+import Log4rsModel.Base.Bytes
 /-
 Model of `log4rs::encode::json::JsonEncoder::encode` (src/encode/json.rs).
 
@@ -150,5 +151,88 @@ def NEWLINE : List Char := ['\n']
 /-- `JsonEncoder::encode_inner`: everything written to the writer for one record -/
 def jsonLine (env : Env) (r : Record) : List Char :=
   object (messageMembers env r) ++ NEWLINE
+
+/-! ### histories: several encodes on one thread with one encoder
+
+`JsonEncoder` is the unit struct `JsonEncoder(())` and `encode_inner` reads nothing but its
+arguments, `thread::current()`, `thread_id::get()` and the MDC — no field, `static` or
+`thread_local!` of its own.  The state an encode leaves behind for the next one is therefore the
+empty structure `EncoderState`; it is threaded through `runHistory` explicitly so that the
+sequence-level law is a statement about the model and not an artefact of how it is written. -/
+
+/-- what the writer handed to `encode` does with the bytes -/
+inductive WriterBehaviour where
+  /-- every write succeeds -/
+  | acceptAll
+  /-- the first `k` bytes are accepted, the write that would exceed them returns an `io::Error` -/
+  | failAfter (k : Nat)
+  deriving DecidableEq, Repr
+
+/-- one encode of a history -/
+structure Step where
+  env : Env
+  record : Record
+  writer : WriterBehaviour
+  /-- `some n`: the `Display` impl behind `record.args()` writes the first `n` characters of the
+      message and then returns `fmt::Error` -/
+  displayFails : Option Nat
+  deriving Repr
+
+/-- everything `JsonEncoder` carries from one encode to the next: nothing -/
+structure EncoderState where
+  deriving DecidableEq, Repr
+
+inductive OutcomeKind where
+  /-- `Ok(())` -/
+  | ok
+  /-- the writer's `io::Error` comes back as `Err` -/
+  | ioErr
+  /-- the message's `Display` failed: serde_json's `collect_str` either panics ("there should be an
+      error") or reports an error — recorded, not judged -/
+  | displayFailed
+  deriving DecidableEq, Repr
+
+structure StepResult where
+  kind : OutcomeKind
+  /-- the bytes the writer accepted -/
+  received : Bytes
+  deriving DecidableEq, Repr
+
+/-- what the serializer has written when the message's `Display` gives up after `n` characters:
+    the object up to and including the escaped first `n` characters of the message -/
+def displayCut (env : Env) (r : Record) (n : Nat) : List Char :=
+  '{' :: (member kTime (jstr env.time) ++ ',' :: (member kLevel (jstr r.level.name) ++ ',' ::
+    (jstr kMessage ++ ':' :: '"' :: escape (r.message.take n))))
+
+/-- the bytes the encoder tries to hand to the writer -/
+def intended (s : Step) : Bytes :=
+  utf8 (match s.displayFails with
+    | none => jsonLine s.env s.record
+    | some n => displayCut s.env s.record n)
+
+/-- the bytes the writer ends up with -/
+def received (s : Step) : Bytes :=
+  match s.writer with
+  | .acceptAll => intended s
+  | .failAfter k => (intended s).take k
+
+/-- the writer accepted everything it was offered -/
+def writerHolds (s : Step) : Bool :=
+  match s.writer with
+  | .acceptAll => true
+  | .failAfter k => decide ((intended s).length ≤ k)
+
+/-- the encode returns `Ok(())` -/
+def succeeds (s : Step) : Bool := s.displayFails.isNone && writerHolds s
+
+/-- `Encode::encode` as a state transformer -/
+def encodeStep (st : EncoderState) (s : Step) : EncoderState × StepResult :=
+  (st, { kind := if !writerHolds s then .ioErr else if s.displayFails.isSome then .displayFailed else .ok,
+         received := received s })
+
+/-- a history of encodes on one thread with one encoder -/
+def runHistory (st : EncoderState) : List Step → List StepResult
+  | [] => []
+  | s :: rest => let (st', res) := encodeStep st s; res :: runHistory st' rest
 
 end Log4rs.Json
